@@ -22,12 +22,30 @@ const prop = "C11"
 
 type textCase struct {
 	Text string `json:"text"`
+	// Nest describes a deep or long input compactly: prefix + open x n + mid + close x n
+	Nest *nestText `json:"nest,omitempty"`
+}
+
+type nestText struct {
+	Prefix string `json:"prefix"`
+	Open   string `json:"open"`
+	Mid    string `json:"mid"`
+	Close  string `json:"close"`
+	N      int    `json:"n"`
+	NoWalk bool   `json:"no_walk,omitempty"` // skip the harness's own (recursive) node walk
+}
+
+func (n *nestText) text() string {
+	return n.Prefix + strings.Repeat(n.Open, n.N) + n.Mid + strings.Repeat(n.Close, n.N)
 }
 
 func laneText(raw json.RawMessage) ([]vf.Failure, error) {
 	var c textCase
 	if err := json.Unmarshal(raw, &c); err != nil {
 		return nil, err
+	}
+	if c.Nest != nil {
+		return checkParseOpts(c.Nest.text(), !c.Nest.NoWalk), nil
 	}
 	return checkParse(c.Text), nil
 }
@@ -38,6 +56,7 @@ var lanes = map[string]vf.LaneFunc{
 	"mutate":     laneText,
 	"corpus":     laneText,
 	"fuzz":       laneText,
+	"deep":       laneText,
 }
 
 func TestReplay(t *testing.T) {
@@ -87,7 +106,11 @@ func runParse(text string, failFast bool) (outcome, *vf.Failure) {
 }
 
 // checkParse: all obligations of C11 for one input.
-func checkParse(text string) (fails []vf.Failure) {
+func checkParse(text string) (fails []vf.Failure) { return checkParseOpts(text, true) }
+
+// checkParseOpts: walk=false skips the harness's recursive walk over the tree (for
+// inputs nested so deeply that the walk itself would need the stack).
+func checkParseOpts(text string, walk bool) (fails []vf.Failure) {
 	lens := bclx.LineLens(text)
 	var outs [2]outcome
 	for i, ff := range []bool{true, false} {
@@ -104,6 +127,9 @@ func checkParse(text string) (fails []vf.Failure) {
 		if o.err == nil {
 			if o.tree == nil {
 				fails = append(fails, vf.Failf("result|nil-nil", "%s: nil tree and nil error", mode))
+				continue
+			}
+			if !walk {
 				continue
 			}
 			bclx.WalkNodes(o.tree, func(n bclx.Node) {
@@ -233,9 +259,9 @@ func TestExhaustive(t *testing.T) {
 			nt, cls := classify(text)
 			r.Eval(nt, vf.Hash(text), cls)
 			if cls == "accepted" && len(idx) == L && r.WantSample() {
-				r.Sample(textCase{text})
+				r.Sample(textCase{Text: text})
 			}
-			r.JudgeNoFatal(textCase{text}, checkParse(text))
+			r.JudgeNoFatal(textCase{Text: text}, checkParse(text))
 		}
 	}
 	rec = func(depth int) {
@@ -287,9 +313,9 @@ func TestRandom(t *testing.T) {
 		}
 		r.Eval(nt, vf.Hash(text), cls)
 		if nt && r.WantSample() {
-			r.Sample(textCase{text})
+			r.Sample(textCase{Text: text})
 		}
-		r.Judge(t, textCase{text}, fails)
+		r.Judge(t, textCase{Text: text}, fails)
 	})
 }
 
@@ -372,9 +398,9 @@ func TestMutate(t *testing.T) {
 		nt, cls := classify(text)
 		r.Eval(nt, vf.Hash(text), cls, "mut:"+kind)
 		if cls == "parse-error" && r.WantSample() {
-			r.Sample(textCase{text})
+			r.Sample(textCase{Text: text})
 		}
-		r.Judge(t, textCase{text}, fails)
+		r.Judge(t, textCase{Text: text}, fails)
 	})
 }
 
@@ -407,7 +433,7 @@ func TestCorpus(t *testing.T) {
 		_ = name
 		nt, cls := classify(text)
 		r.Eval(nt, vf.Hash(text), cls)
-		r.JudgeNoFatal(textCase{text}, checkParse(text))
+		r.JudgeNoFatal(textCase{Text: text}, checkParse(text))
 	}
 	rapid.Check(t, func(t *rapid.T) {
 		text, _ := bclgen.File(t)
@@ -415,9 +441,9 @@ func TestCorpus(t *testing.T) {
 		nt, cls := classify(text)
 		r.Eval(nt, vf.Hash(text), cls)
 		if cls == "accepted" && r.WantSample() {
-			r.Sample(textCase{text})
+			r.Sample(textCase{Text: text})
 		}
-		r.Judge(t, textCase{text}, fails)
+		r.Judge(t, textCase{Text: text}, fails)
 	})
 }
 
@@ -465,9 +491,45 @@ func TestFuzzInput(t *testing.T) {
 			continue
 		}
 		text := vals[0].(string)
-		c := textCase{text}
+		c := textCase{Text: text}
 		r.Eval(true, vf.Hash(text), "fuzz-crasher")
 		r.Journal(c)
 		r.JudgeNoFatal(c, checkParse(text))
 	}
+}
+
+// lane: deep nesting and very long flat inputs. A parser that recurses per level
+// without a bound dies of stack overflow (fatal, attributed through the journal);
+// everything else must return within the watchdog.
+func TestDeep(t *testing.T) {
+	r := vf.Start(t, prop, "deep")
+	type tmpl struct {
+		name                     string
+		prefix, open, mid, close string
+		depths                   []int
+	}
+	tmpls := []tmpl{
+		{"array", "a = ", "[", "1", "]", []int{1, 10, 999, 1000, 1001, 1002, 5000, 200000, 3000000}},
+		{"array-open", "a = ", "[", "", "", []int{1, 1000, 1001, 200000, 3000000}},
+		{"array-commas", "a = ", "[1,", "2", "]", []int{1000, 1001, 200000}},
+		{"block", "", "b {\n", "", "}\n", []int{1000, 100000}},
+		{"block-open", "", "b {\n", "", "", []int{1000, 100000}},
+		{"qualifiers", "b ", "a:", "a", "", []int{1000, 300000}},
+		{"dots", "", "a.", "a = 1", "", []int{1000, 300000}},
+		{"tags", "b", " t", "", "", []int{1000, 300000}},
+		{"descriptions", "b {\n", "| d\n", "}", "", []int{1000, 300000}},
+		{"statements", "", "a = 1\n", "", "", []int{1000, 300000}},
+		{"bangs", "b ", "!", "", "", []int{1000, 300000}},
+	}
+	for _, tp := range tmpls {
+		for _, n := range tp.depths {
+			nt := &nestText{Prefix: tp.prefix, Open: tp.open, Mid: tp.mid, Close: tp.close, N: n, NoWalk: n > 50000}
+			text := nt.text()
+			c := textCase{Nest: nt}
+			r.Eval(n > 1, vf.Hash(tp.name, n), "shape:"+tp.name, fmt.Sprintf("size>=%d", map[bool]int{true: 100000, false: 0}[n >= 100000]))
+			r.Journal(c)
+			r.JudgeNoFatal(c, checkParseOpts(text, !nt.NoWalk))
+		}
+	}
+	r.SetExhaustive()
 }
